@@ -71,7 +71,7 @@ class IntegerHolder(ObjectHolder[int]):
     def to_string_method(self, args: T.List[TYPE_var], kwargs: ToStringKw) -> str:
         format_codes = {'hex': 'x', 'oct': 'o', 'bin': 'b', 'dec': 'd'}
         return '{:#0{fill}{format}}'.format(self.held_object,
-                                            fill=max(0, kwargs['fill']),
+                                            fill=max(0, int(kwargs['fill'])),
                                             format=format_codes[kwargs['format']])
 
     @typed_operator(MesonOperator.DIV, int)
